@@ -9,7 +9,7 @@
 From Coq Require Import List NArith ZArith Bool.
 From KV Require Import Lib.Bits Lib.Bytes Model.Legacy Model.ConnOps.
 From KV Require Import Proofs.ConnOpsBase Proofs.ConnOpsCodec Proofs.ConnOpsProofs Proofs.ConnOpsWitness
-  Proofs.ConnOpsCustom Proofs.ConnOpsAll Proofs.ConnOpsInflight.
+  Proofs.ConnOpsCustom Proofs.ConnOpsAll Proofs.ConnOpsInflight Proofs.ConnOpsNego.
 Import ListNotations.
 Open Scope Z_scope.
 
@@ -129,6 +129,70 @@ Theorem C11_step : forall st a v off w rest st' r s',
    (exists e, r = RErr e /\ is_kafka e = false /\ closed st' = true)).
 Proof. exact wf_step. Qed.
 Print Assumptions C11_step.
+
+(* ---- version negotiation (negotiateVersion / loadVersions as a step of [conn_nop]; the state is
+   (conn_state, cached version map)) ---- *)
+(* C11's first sentence for the implicit ApiVersions exchange: when it is answered by a
+   well-formed response carrying an error code, the negotiating operation returns that Kafka
+   error, NOTHING is cached, the reader sits behind the ApiVersions frame and the Conn is open:
+   the next operation behaves as on a fresh connection (it asks ApiVersions again and then sends
+   its own request at the version a fresh Conn would choose) *)
+Theorem C11_failed_apiversions_as_fresh : forall st a key offered off w code rest st1 s1,
+  supported a = Some (key, offered) ->
+  well_formed AApiVersions 0 w -> fits (enc (resp_ty AApiVersions 0) w) -> closed st = false ->
+  conn_do st (mkOp AApiVersions 0 0)
+    (frame (wrap32 (corr st + 1)) (enc (resp_ty AApiVersions 0) w) ++ rest) = (st1, RErr (EKafka code), s1) ->
+  conn_nop (st, None) a off (frame (wrap32 (corr st + 1)) (enc (resp_ty AApiVersions 0) w) ++ rest)
+    = ((st1, None), RErr (EKafka code), rest) /\
+  closed st1 = false /\ corr st1 = wrap32 (corr st + 1).
+Proof. exact nego_failed_as_fresh. Qed.
+Print Assumptions C11_failed_apiversions_as_fresh.
+
+(* the version map is stored only by a successful ApiVersions exchange, and then kept *)
+Theorem C11_versions_cached_only_on_success : forall st a off s st' t r s',
+  conn_nop (st, None) a off s = ((st', Some t), r, s') ->
+  exists st1 r0 s1, conn_do st (mkOp AApiVersions 0 0) s = (st1, ROk r0, s1) /\ t = table_of r0.
+Proof. exact nego_cache_only_on_success. Qed.
+Print Assumptions C11_versions_cached_only_on_success.
+
+Theorem C11_versions_cache_kept : forall st t a off s c' r s',
+  conn_nop (st, Some t) a off s = (c', r, s') -> snd c' = Some t.
+Proof. exact nego_cache_kept. Qed.
+Print Assumptions C11_versions_cache_kept.
+
+(* ---- Batch.Read / Batch.ReadMessage / Conn.Read / Conn.ReadMessage: the operation
+   [AFetchRead acts] = ReadBatch, the actions (a >= 0: Read into a buffer of a bytes, -1:
+   ReadMessage) until io.ErrShortBuffer or the end of the batch, then Batch.Close.  Its result is
+   ROk (fin_val flag offset outcomes) when Close returns nil (flag 0) or io.ErrShortBuffer (flag 1):
+   exactly the outcomes after which Batch.close keeps the Conn.  All theorems above
+   (C11_aligned_after_kafka_error, C11_step, C11_no_cross_interpretation, C17_conn_cut) quantify
+   over it as over every other operation.  In particular, on ANY incoming bytes: after Close
+   following io.ErrShortBuffer (or success) the reader sits exactly at the next frame boundary
+   and the Conn is open ---- *)
+Theorem C11_read_short_buffer_aligned : forall st acts v off s st' x s',
+  closed st = false ->
+  conn_do st (mkOp (AFetchRead acts) v off) s = (st', ROk x, s') ->
+  consumed_frame s s' /\ closed st' = false.
+Proof.
+  intros st acts v off s st' x s' Hcl H.
+  exact (frame_exact st (mkOp (AFetchRead acts) v off) s st' (ROk x) s' Hcl
+           (fun E => match E in _ = y return match y with AFetchRead _ => True | _ => False end with eq_refl => I end) H I).
+Qed.
+Print Assumptions C11_read_short_buffer_aligned.
+
+(* instances: ReadMessage, then Read into a 1-byte buffer (value "cde"): io.ErrShortBuffer, the
+   batch offset is rolled back to 8, the offset of the message that did not fit; the following
+   heartbeat reads its own frame; the documented retry with a larger buffer delivers it *)
+Theorem C11_regression_short_buffer :
+  conn_run (fresh [116%N]) [mkOp (AFetchRead [-1; 1]) 2 7; hb]
+    (frame 1 (enc (resp_ty AFetch 2) w_fetch_two) ++ hb_frame 2)
+  = (mkConn false 2 [116%N] 7,
+     [ROk (fin_val 1 8 [act_val 1 7 [] [97%N; 98%N] 0; act_val 0 1 [] [99%N] 1]); ROk (VZ 0)], []) /\
+  conn_do (fresh [116%N]) (mkOp (AFetchRead [-1; 3]) 2 7) (frame 1 (enc (resp_ty AFetch 2) w_fetch_two))
+  = (mkConn false 1 [116%N] 7,
+     ROk (fin_val 0 9 [act_val 1 7 [] [97%N; 98%N] 0; act_val 0 3 [] [99%N; 100%N; 101%N] 0]), []).
+Proof. exact (conj short_buffer_then_next_ok short_buffer_retry_ok). Qed.
+Print Assumptions C11_regression_short_buffer.
 
 (* ---- regression instances: the responses that left the stream misaligned before the fixes
    (defect F2 and the highWaterMark = offset case) ---- *)
